@@ -153,6 +153,15 @@ CLAIMED = {
          "(asymmetric axes, intermediate masters, avar, HVAR, variable kerning) and corpus fonts under random pins, ranges and moved "
          "defaults, compared through HarfBuzz at the same user-space locations within the rounding budget (testing).",
          "Rocq proof of user-space meaning of renormalisation over the C09 model tied by differential correspondence + HarfBuzz instancing sweeps"),
+ "C10": ("Gallina model of VariationModel.getDeltas WITH rounding (each delta computed from the already rounded earlier ones) and of "
+         "evaluation at a master location, on top of C09's model; tied to the code by exact differential runs over random master sets (the "
+         "implementation's own supports and scalars at every master are compared with the model's weight rows). Theorem: for any number of "
+         "masters and any weights the built value at master k differs from master k by at most the error of ONE rounding (1/2 for otRound) -- "
+         "errors do not accumulate. Master sorting, support computation, gvar/HVAR/MVAR/CFF2/GPOS merging and avar construction are checked "
+         "on the implementation: generated designspaces (axis maps, intermediate/corner/sparse masters, sources in random order, TrueType and "
+         "CFF, per-master kerning exceptions, anchors, metrics) built with varLib.build and compared through HarfBuzz at every master's "
+         "user-space location (testing).",
+         "Rocq proof of non-accumulating delta rounding over a model tied by differential correspondence + HarfBuzz master-reproduction sweeps"),
 }
 
 def main():
